@@ -133,6 +133,7 @@ def eval_long(case):
 def shards(ctx):
     build.build("asm")
     build.build("c32")
+    build.build("c64")
     out = []
     for k in range(8):
         out.append({"sub": "pre-pairs", "part": k, "parts": 8})
@@ -148,6 +149,11 @@ def shards(ctx):
     for k, (st, hists) in enumerate(sorted(reach.items(), key=lambda kv: str(kv[0]))):
         if k % 4 == 1:
             out.append({"sub": "nd", "state": [st[0], list(st[1])], "history": hists[0], "cfg": "c32"})
+        if k % 4 == 3:
+            out.append({"sub": "nd", "state": [st[0], list(st[1])], "history": hists[0], "cfg": "c64"})
+    for cfg in ("c64", "c32"):
+        out.append({"sub": "pre-pairs", "part": 0, "parts": 8, "cfg": cfg})
+    out.append({"sub": "long", "n": 9, "cfg": "c64"})
     # list lengths as operands (l = 65): adjustments between long and short lists in both directions
     for n in (wk.LONG_N if ctx.tier == "thorough" else [5, 9, 17, 33, 65]):
         out.append({"sub": "long", "n": n})
@@ -158,7 +164,7 @@ def run_shard(ctx, shard):
     sub = shard["sub"]
     seed = ctx.seed
     if sub == "long":
-        case = {"sub": "long", "cfg": "asm", "seed": seed, "n": shard["n"]}
+        case = {"sub": "long", "cfg": shard.get("cfg", "asm"), "seed": seed, "n": shard["n"]}
         msgs = eval_long(case)
         ctx.ok(True, "long-lists", n=28)
         if msgs:
@@ -185,7 +191,7 @@ def run_shard(ctx, shard):
         Ls = lists_for(3, ctx.tier)
         pairs = list(itertools.product(Ls, Ls))[shard["part"]::shard["parts"]]
         for F, T in pairs:
-            emit({"sub": "pre", "cfg": "asm", "l": 3, "sig": False, "seed": seed, "chain": [F, T]}, F != T, "pre-pair:" + klass([F, T]))
+            emit({"sub": "pre", "cfg": shard.get("cfg", "asm"), "l": 3, "sig": False, "seed": seed, "chain": [F, T]}, F != T, "pre-pair:" + klass([F, T]))
             if ctx.out_of_time():
                 return
     elif sub == "pre-chains":
